@@ -114,7 +114,9 @@ def run(W, p):
         tconds = [len(V["time"]) == len(recs)]
         for k, r in enumerate(recs):
             tconds.append(False if k >= len(V["time"]) or W.is_fill(V["time"][k]) else W.eq(V["time"][k], T0 + rec_steps[r] * DT - ref))
-        W.prove(W.all(tconds), "time-coordinate", dict(file=fname))
+        # the units attribute must name the reference time the values are relative to
+        tconds.append(_units_ref(d["atts"]["time"].get("units", ""), W) == W.idx(ref) if not W.symbolic else _units_ok(W, d["atts"]["time"].get("units", ""), ref))
+        W.prove(W.all(tconds), "time-coordinate", dict(file=fname, units=d["atts"]["time"].get("units")))
         if layout == "sparse":
             pc = V["particle_count"]
             exp_counts = [sum(1 for pid in range(total) if alive_at(pid, rec_steps[r])) for r in recs]
@@ -165,8 +167,26 @@ def run(W, p):
                     conds.append(False)
                 else:
                     conds.append(W.eq(arr[pid], exp))
+        ru = d["atts"].get("release_time", {}).get("units", "")
+        conds.append((_units_ref(ru, W) == W.idx(ref)) if not W.symbolic else _units_ok(W, ru, ref))
         W.prove(W.all(conds) if conds else True, "particle-vars", dict(file=fname, released=released, kd=kd, rs=rs, mult=mult, lens={v: len(V.get(v, [])) for v in ("w0", "release_time")}))
     return (tuple(mult), tuple(kd))
+
+
+def _units_ref(units, W):
+    import numpy as np
+
+    unit, _, r = units.partition(" since ")
+    if unit != "seconds":
+        return None
+    return int((np.datetime64(r.strip(), "s") - np.datetime64(0, "s")) / np.timedelta64(1, "s"))
+
+
+def _units_ok(W, units, ref):
+    unit, _, r = units.partition(" since ")
+    if unit != "seconds":
+        return False
+    return W.eq(W.sec_of(W.np.DT(r.strip())), ref)
 
 
 def signature(v, scen):
